@@ -10,6 +10,7 @@ import (
 	"verifharness/core"
 	"verifharness/props/c01"
 	"verifharness/props/c02"
+	"verifharness/props/c03"
 	"verifharness/props/c04"
 	"verifharness/props/c05"
 	"verifharness/props/c06"
@@ -31,6 +32,7 @@ import (
 var checks = map[string]func(*core.Ctx) int{
 	"C01":   c01.Run,
 	"C02":   c02.Run,
+	"C03":   c03.Run,
 	"C04":   c04.Run,
 	"C05":   c05.Run,
 	"C06":   c06.Run,
